@@ -30,7 +30,7 @@ func runC15Toctou(o Opts) {
 			svc := &c15Service{cur: map[string]c15SV{"a": {1, 100}, "x": {1, 1}}, ans: map[string]string{}}
 			ctx, cancel := context.WithCancel(context.Background())
 			defer cancel()
-			st, err := setec.NewStore(ctx, setec.StoreConfig{Client: svc, Secrets: []string{"a"}, AllowLookup: true,
+			st, err := newStoreReleased(ctx, setec.StoreConfig{Client: svc, Secrets: []string{"a"}, AllowLookup: true,
 				PollInterval: -1, Logf: func(string, ...any) {}})
 			if err != nil {
 				fmt.Println("NewStore:", err)
